@@ -264,6 +264,12 @@ export async function run(ctx) {
       ["union-with-object", (n) => `${n} | { kind: "x"; a: 1 }`],
       ["union-of-tagged", (n) => `(${n} & { kind: "n" }) | { kind: "x" }`],
       ["generic-grow", (n) => `{ w: W<${n}> }`],
+      // through a type parameter (distributive conditional types) and through a template hole
+      ["generic-conditional", (n) => `F<${n}>`],
+      ["generic-conditional-nested", (n) => `{ p: F<${n} | "lit">; q: FF<${n}> }`],
+      ["template-hole", (n) => `\`id-\${${n}}\``],
+      ["generic-template", (n) => `Tpl<${n}>`],
+      ["generic-identity-keyof", (n) => `keyof Id<${n}>`],
     ];
     let k = 0;
     for (const [cn, c] of containers)
@@ -271,8 +277,9 @@ export async function run(ctx) {
         for (const mutual of [false, true]) {
           k++;
           if (k % ctx.of !== ctx.shard) continue;
+          const generics = "type F<T> = T extends string ? 1 : 2;\ntype FF<T> = T extends (infer U)[] ? U : T extends string ? T : never;\ntype Tpl<T> = T extends string ? `t-${T}` : never;\ntype Id<T> = T;\n";
           const pre = "type W<T> = { v: T; next?: W<T[]> | W<{ t: T }> };\n";
-          const text = (on === "generic-grow" ? pre : "") + (mutual ? `type N = ${c("M")};\ntype M = N | null;\nexport const P = parse.buildParsers<{ X: ${o("N")} }>();\n` : `type N = ${c("N")};\nexport const P = parse.buildParsers<{ X: ${o("N")} }>();\n`);
+          const text = (on === "generic-grow" ? pre : "") + (on.startsWith("generic-") && on !== "generic-grow" ? generics : "") + (mutual ? `type N = ${c("M")};\ntype M = N | null;\nexport const P = parse.buildParsers<{ X: ${o("N")} }>();\n` : `type N = ${c("N")};\nexport const P = parse.buildParsers<{ X: ${o("N")} }>();\n`);
           ctx.count("recursion-grid");
           await judge(ctx, { files: { "entry.ts": text }, settings: { string_formats: [], number_formats: [] } }, `grid:${cn}/${on}${mutual ? "/mutual" : ""}`);
         }
